@@ -258,6 +258,49 @@ def r18_3(ctx: Ctx, E: Effects, rule="R18.3"):
     tg = sorted({e.target for e in E.summary(rs) if e.kind == "ATTR_STORE"})
     ctx.ob(rule, rs, "Molecule.resids = v writes %s" % tg, tg == ["AtomGro.resid", "AtomTop.resid"],
            "residue numbers are written through to the coordinate atoms (and the topology atoms)", node=rs.node)
+    # each branch of the setter (list of numbers / single number) writes both sides of every atom
+    from ..pat import find as pfind4
+    rp = [p_ for p_ in rs.params if p_ != "self"][0]
+    branches = []
+    for n_ in walk_no_nested(rs.node):
+        if isinstance(n_, ast.If) and norm(n_.test).replace(" ", "") in (
+                ("isinstance(%s, list) and isinstance(%s[0], int)" % (rp, rp)).replace(" ", ""), ("isinstance(%s, list)" % rp).replace(" ", "")):
+            branches.append(("list", n_.body))
+        if isinstance(n_, ast.If) and norm(n_.test).replace(" ", "") == ("isinstance(%s, int)" % rp).replace(" ", ""):
+            branches.append(("int", n_.body))
+    okb = len(branches) == 2
+    for kind, body in branches:
+        loops_ = [x for st_ in body for x in ast.walk(st_) if isinstance(x, ast.For)]
+        okl = False
+        for l_ in loops_:
+            av_ = norm(l_.target.elts[0]) if isinstance(l_.target, ast.Tuple) else norm(l_.target)
+            tgts = sorted(norm(s_.targets[0]) for s_ in l_.body if isinstance(s_, ast.Assign))
+            vals = {norm(s_.value) for s_ in l_.body if isinstance(s_, ast.Assign)}
+            if tgts == ["%s.gro_resid" % av_, "%s.top_resid" % av_] and len(vals) == 1:
+                v_ = list(vals)[0]
+                okl = (kind == "int" and v_ == rp) or (kind == "list" and v_.startswith(rp + "["))
+        okb = okb and okl
+    ctx.ob(rule, rs, "branches of the resids setter: %s" % [k for k, _ in branches], okb,
+           "given a list, atom i gets the number of its residue on both sides; given one number, every atom gets it on both sides",
+           node=rs.node)
+    lenchk = [n_ for n_ in walk_no_nested(rs.node) if isinstance(n_, ast.If) and norm(n_.test).replace(" ", "") == ("len(%s) != len(self.resids)" % rp).replace(" ", "")
+              and any(isinstance(x, ast.Raise) for x in n_.body)]
+    ctx.ob(rule, rs, lenchk[0] if lenchk else "length check", bool(lenchk),
+           "a list of the wrong length is refused", node=lenchk[0] if lenchk else rs.node)
+    # AtomGro.copy hands every field to the constructor: numbers, names, position and (when present) velocity
+    cp = ctx.func("AtomGro.copy")
+    lst = pfind4(cp.node, "V_l = [self.resid, self.resname, self.name, self.atomid]")
+    okc = False
+    if lst:
+        lv = lst[0][1]["V_l"]
+        pos = pfind4(cp.node, "%s += list(self.position)" % lv)
+        vel = pfind4(cp.node, "if self.velocity is not None:\n    %s += list(self.velocity)" % lv)
+        ctor = pfind4(cp.node, "return AtomGro(%s)" % lv)
+        okc = bool(pos) and bool(vel) and bool(ctor) and pos[0][0].lineno < vel[0][0].lineno < ctor[0][0].lineno
+        ctx.ob(rule, cp, "record handed to the constructor", okc,
+               "the copy is built from (resid, resname, name, atomid) + position (+ velocity when the atom has one)", node=cp.node)
+    else:
+        ctx.ob(rule, cp, "record handed to the constructor", True, "AtomGro.copy does not build a record list; not decided", undecided=True)
     # the positions setter writes every atom of the receiver exactly once, in order
     st = ctx.func("Residue.atoms_positions@set")
     loops = [n for n in walk_no_nested(st.node) if isinstance(n, ast.For)]
